@@ -24,7 +24,8 @@ from elementpath.exceptions import ElementPathError
 from elementpath.namespaces import XSD_NAMESPACE, XSD_NOTATION, XSD_ANY_ATOMIC_TYPE, XSD_UNTYPED
 from elementpath.helpers import node_position, get_double
 from elementpath.namespaces import XSD_ERROR, get_namespace, get_expanded_name
-from elementpath.datatypes import UntypedAtomic, QName, AnyURI, Duration, Integer
+from elementpath.datatypes import AbstractDateTime, UntypedAtomic, QName, AnyURI, \
+    Duration, Integer
 from elementpath.xpath_nodes import ElementNode, DocumentNode, XPathNode, AttributeNode
 from elementpath.sequences import xlist
 from elementpath.sequence_types import is_instance
@@ -531,7 +532,11 @@ def evaluate__value_comparison_operators(self: XPathToken, context: ta.ContextTy
         raise self.error('FOTY0013', "cannot compare a function item")
 
     cls0, cls1 = type(operands[0]), type(operands[1])
-    if cls0 is cls1 and cls0 is not Duration:
+    if self.symbol not in ('eq', 'ne') and \
+            any(isinstance(x, AbstractDateTime) and x.name.startswith('g') for x in operands):
+        msg = "cannot apply {} between {!r} and {!r}".format(self, *operands)
+        raise self.error('XPTY0004', msg)  # no order relation on xs:gYear, xs:gMonth, ...
+    elif cls0 is cls1 and cls0 is not Duration:
         pass
     elif all(isinstance(x, float) for x in operands):
         pass
